@@ -412,7 +412,11 @@ impl<'a> Checker<'a> {
         if let Err(p) = r {
             self.push("C02", "panic", "iterate_annotations", crate::exec::normalise_panic(&p));
         }
-        if serialise {
+        // serialising to a JSON string writes the stand-off file of every changed item that has a
+        // filename (whatever the given config says) - on a store that is kept as CSV that would put
+        // JSON into .csv files, which is the harness's doing, not the library's: not done there
+        let kept_as_csv = store.config().dataformat() == stam::DataFormat::Csv;
+        if serialise && !kept_as_csv {
             let r = catch(|| {
                 let cfg = Config::new().with_use_include(false);
                 store.to_json_string(&cfg)
